@@ -197,10 +197,11 @@ def main():
     # 5. leaving a journal that was never entered is rejected and changes nothing
     try:
         Journal().__exit__(None, None, None)
-    except KeyError as e:
-        assert e.args == ("TensorBase.__init__",)
+    except (KeyError, IndexError):
+        # (KeyError before fix 2353e9a of the library, IndexError since: leaving a journal that was never entered is misuse either way)
+        pass
     else:
-        raise AssertionError("expected KeyError")
+        raise AssertionError("expected an error")
     assert same(class_snapshot(), base)
     assert scenario()[0] == plain_trace
     print("OK", len(j1.entries), "entries")
